@@ -124,7 +124,10 @@ class JobRunner:
             self.cur_ctx = ctx
             self.path_checks = []
             self.violations_before = len(self.violations)
-            I.call(ob.scenario, [ctx, cfg], {})
+            try:
+                I.call(ob.scenario, [ctx, cfg], {})
+            finally:
+                ctx.cleanup()
             return ctx
 
         reach = None
